@@ -126,9 +126,9 @@ Definition enc_decimal_raw (prec scale ip fp : N) : bytes :=
   ++ flat_map (be_bytes 4) (to_base B9 (N.to_nat frac0) (fp / pow10 frac0x))
   ++ be_bytes (dig2bytes frac0x) (fp mod pow10 frac0x).
 
-(* None: the serializer returns an error (precision = scale: the integer string "0" is left over). *)
+(* (DECIMAL(M,M): the integer string "0" is dropped since c26eb40 — no integer bytes; the sign bit then sits in the first
+   fractional byte, as in MySQL's decimal2bin) *)
 Definition enc_decimal (prec scale : N) (neg : bool) (ip fp : N) : option bytes :=
-  if prec - scale =? 0 then None else
   match enc_decimal_raw prec scale ip fp with
   | [] => Some []
   | b0 :: r =>
